@@ -561,6 +561,13 @@ class MoveModule:
             raise exceptions.RefactoringError(
                 "Move destination for modules should be packages."
             )
+        source_file = self.source
+        if source_file.is_folder():
+            source_file = source_file.get_child("__init__.py")
+        if source_file not in self.project.get_python_files():
+            raise exceptions.RefactoringError(
+                "Cannot move a module that is ignored or outside the project."
+            )
         return self._calculate_changes(dest, resources, task_handle)
 
     def _calculate_changes(self, dest, resources, task_handle):
